@@ -74,7 +74,6 @@ LcmI(a, b) == (a \div GCD(a, b)) * b
 RECURSIVE DenLcmTo(_, _)
 DenLcmTo(y, n) == IF n = 0 THEN 1 ELSE LcmI(DenLcmTo(y, n - 1), y[n][2])
 DenLcm(y) == DenLcmTo(y, Len(y))
-DENMAX == 12                                                           \* neighbour theorems: 32-bit safe below this
 
 --------------------------------------------------------------------------------------------------------------
 (* (a) group lasso on one integer row                                                                           *)
@@ -107,10 +106,11 @@ LassoKKT(w, al, r) ==
 LassoNoBetter(w, al, r) ==
     (r.rat /\ Len(w) <= NBMAX) =>
         LET z == r.zr
-            fstar == RAdd(RHalf(RDist2(z, w)), RMul(al, IF r.zero THEN RZero ELSE RSub(R(INorm(w)), al)))
-        IN \A st \in Steps, dl \in Deltas(Len(w)) :
-              LET y == Strict([i \in 1..Len(w) |-> RAdd(z[i], RMul(st, R(dl[i])))])
-              IN SqrtGe(al, RSumSq(y), RSub(fstar, RHalf(RDist2(y, w))))
+            fstar == RAdd(RHalf(RDist2(z, w)), RMul(al, RSqrt(RSumSq(z))))    \* f(z), |z| rational as z = t w
+        IN /\ RIsSquare(RSumSq(z))
+           /\ \A st \in Steps, dl \in Deltas(Len(w)) :
+                 LET y == Strict([i \in 1..Len(w) |-> RAdd(z[i], RMul(st, R(dl[i])))])
+                 IN SqrtGe(al, RSumSq(y), RSub(fstar, RHalf(RDist2(y, w))))
 
 --------------------------------------------------------------------------------------------------------------
 (* (b) HIER-PROX minimiser from first principles.  nv = |v| (integer), ua = |u| (integers)                       *)
@@ -129,16 +129,17 @@ PieceCand(nv, ua, al, m, bp, i) ==
         st == RDiv(RAdd(RSub(R(nv), al), RMul(m, R(sA))), RAdd(ROne, RMul(R(Cardinality(act)), RSq(m))))
         c1 == RMax(st, lo)
     IN IF i < Len(bp) THEN RMin(c1, bp[i + 1]) ELSE c1
-Cands(nv, ua, al, m) ==
+Cands(nv, ua, al, m) ==                                               \* one candidate per piece, as a sequence
     LET bp == SetToSortSeq(Breaks(ua, m), RLt)
-    IN {PieceCand(nv, ua, al, m, bp, i) : i \in 1..Len(bp)}
+    IN Strict([i \in 1..Len(bp) |-> PieceCand(nv, ua, al, m, bp, i)])
 Minimiser(v, u, al, m) ==
     LET nv == INorm(v)
         ua == AbsSeq(u)
         cs == Cands(nv, ua, al, m)
-        ph_ == [b \in cs |-> Phi(nv, ua, al, m, b)]
-        best == CHOOSE b \in cs : \A b2 \in cs : RCmp(ph_[b], ph_[b2]) <= 0
-    IN [b |-> best, f |-> ph_[best], nbest |-> Cardinality({b \in cs : ph_[b] = ph_[best]}),
+        fs == Strict([i \in 1..Len(cs) |-> Phi(nv, ua, al, m, cs[i])])
+        bi == CHOOSE i \in 1..Len(cs) : \A i2 \in 1..Len(cs) : RCmp(fs[i], fs[i2]) <= 0
+        best == cs[bi]
+    IN [b |-> best, f |-> fs[bi], nbest |-> Cardinality({cs[i] : i \in {i2 \in 1..Len(cs) : fs[i2] = fs[bi]}}),
         beta |-> Strict([i \in 1..Len(v) |-> IF nv = 0 THEN RZero ELSE RMul(best, Q(v[i], nv))]),
         theta |-> Strict([j \in 1..Len(u) |-> RMul(R(Sgn(u[j])), RMin(R(ua[j]), RMul(m, best)))])]
 
@@ -173,27 +174,46 @@ HierEval(v, u, al, m) ==
 InScope(v, u, al) == IsZeroRow(v) => (IsZeroRow(u) /\ al # RZero)      \* the property's quantifier
 HierAlgIsMin(v, r) == ~IsZeroRow(v) => (r.alg.beta = r.min.beta /\ r.alg.theta = r.min.theta)
 HierPaperAgrees(v, r) == ~IsZeroRow(v) => (r.alg.paper /\ r.alg.prefix)
-HierFeasible(v, u, m, r) ==                                            \* |theta_j| <= M |beta|,  |beta| = b
+HierFeasible(v, u, al, m, r) ==                                            \* |theta_j| <= M |beta|,  |beta| = b
     /\ RSumSq(r.min.beta) = (IF IsZeroRow(v) THEN RZero ELSE RSq(r.min.b))
     /\ RLe(RZero, r.min.b)
+    /\ r.min.f = RAdd(RAdd(RHalf(RDist2(r.min.beta, v)), RHalf(RDist2(r.min.theta, u))), RMul(al, r.min.b))
     /\ \A j \in 1..Len(u) : RLe(RAbs(r.min.theta[j]), RMul(m, r.min.b))
 HierStationary(v, u, al, m, r) ==                                      \* convex phi: b minimises iff this holds
     LET d == DPhi(INorm(v), AbsSeq(u), al, m, r.min.b)
     IN IF r.min.b = RZero THEN RLe(RZero, d) ELSE d = RZero
 HierUnique(r) == r.min.nbest = 1
-HierNbr(v, u, r) == Len(v) + Len(u) <= NBMAX /\ LcmI(DenLcm(r.min.beta), DenLcm(r.min.theta)) <= DENMAX
-(* no FEASIBLE point of the 1/4- and 1-grids around (beta, theta) has a smaller objective; this validates the       *)
-(* reduction to phi(b) in the full (beta, theta) space (evaluated where denominators keep 32-bit arithmetic safe)  *)
+(* NEIGHBOUR THEOREM in the full (beta, theta) space: no FEASIBLE point y = (beta, theta) + unit * delta, delta in  *)
+(* {-1,0,1}^(K+h), has a smaller objective, for unit = 1/L (the finest grid containing the minimiser), 1/4 and 1.  *)
+(* This validates the reduction to phi(b).  It is evaluated in integers scaled by the common denominator L (no     *)
+(* gcds: 50x faster than rationals):  F(y) >= F*  <=>  8 L Aq |YB| >= C  with  C = 32 L^2 F* - 16|YB - L v|^2 -       *)
+(* 16|YT - L u|^2, alpha = Aq/4, YB = L yb, YT = L yt; squares are compared through CmpFrac so nothing overflows.  *)
+Int4(x) == x[1] * (4 \div x[2])                                        \* 4x for x a multiple of 1/4
+Scaled(x, L) == x[1] * (L \div x[2])
+LDEN == 200                                                            \* 32-bit safe up to this common denominator
+HierL(r) == LcmI(LcmI(LcmI(DenLcm(r.min.beta), DenLcm(r.min.theta)), r.min.b[2]), 4)
+HierNbr(v, u, r) == Len(v) + Len(u) <= NBMAX /\ HierL(r) <= LDEN
 HierNoBetter(v, u, al, m, r) ==
     HierNbr(v, u, r) =>
         LET k == Len(v)
             h == Len(u)
-        IN \A st \in Steps, dl \in Deltas(k + h) :
-              LET yb == Strict([i \in 1..k |-> RAdd(r.min.beta[i], RMul(st, R(dl[i])))])
-                  yt == Strict([j \in 1..h |-> RAdd(r.min.theta[j], RMul(st, R(dl[k + j])))])
-                  nb2 == RSumSq(yb)
-                  feas == \A j \in 1..h : RLe(RSq(yt[j]), RMul(RSq(m), nb2))
-              IN feas => SqrtGe(al, nb2, RSub(r.min.f, RAdd(RHalf(RDist2(yb, v)), RHalf(RDist2(yt, u)))))
+            L == HierL(r)
+            Aq == Int4(al)
+            Mq == Int4(m)
+            BS == Strict([i \in 1..k |-> Scaled(r.min.beta[i], L)])
+            TS == Strict([j \in 1..h |-> Scaled(r.min.theta[j], L)])
+            F32 == Scaled(r.min.f, 32 * L * L)
+            P == 64 * L * L * Aq * Aq
+        IN /\ (32 * L * L) % r.min.f[2] = 0
+           /\ \A unit \in {1, L \div 4, L}, dl \in Deltas(k + h) :
+                 LET YB == Strict([i \in 1..k |-> BS[i] + unit * dl[i]])
+                     YT == Strict([j \in 1..h |-> TS[j] + unit * dl[k + j]])
+                     nb2 == SumSq(YB)
+                     feas == \A j \in 1..h : IF Mq = 0 THEN YT[j] = 0
+                                                       ELSE CmpFrac(16 * YT[j] * YT[j], Mq * Mq, nb2, 1) <= 0
+                     C == F32 - 16 * SumSq([i \in 1..k |-> YB[i] - L * v[i]])
+                              - 16 * SumSq([j \in 1..h |-> YT[j] - L * u[j]])
+                 IN feas => (C <= 0 \/ (P > 0 /\ nb2 > 0 /\ CmpFrac(C, P, nb2, C) <= 0))
 
 --------------------------------------------------------------------------------------------------------------
 (* (d) group wrappers                                                                                           *)
@@ -289,9 +309,9 @@ AlgIsMin == Ev =>
                                                     IN HierAlgIsMin(v, res.fl[t]) /\ HierPaperAgrees(v, res.fl[t])
       [] OTHER -> TRUE
 Feasible == Ev =>
-    CASE MODE = "hier"  -> HierFeasible(c.v, c.u, c.m, res)
+    CASE MODE = "hier"  -> HierFeasible(c.v, c.u, c.al, c.m, res)
       [] MODE = "ghier" -> \A t \in 1..Len(c.gs) :
-                              HierFeasible(Flat(c.V, c.gs[t], KO), Flat(c.U, c.gs[t], H), c.m, res.fl[t])
+                              HierFeasible(Flat(c.V, c.gs[t], KO), Flat(c.U, c.gs[t], H), c.al, c.m, res.fl[t])
       [] OTHER -> TRUE
 Stationary == Ev =>
     CASE MODE = "hier"  -> HierStationary(c.v, c.u, c.al, c.m, res) /\ HierUnique(res)
